@@ -72,9 +72,9 @@ Proof. intros [| |]; cbn; congruence. Qed.
 Lemma active_nd : forall s, is_active s = true -> s <> Disabled.
 Proof. intros [| |]; cbn; congruence. Qed.
 Lemma on_update_active : forall s l, l <> [] -> is_active s = true -> is_active (ts_on_update s l) = true.
-Proof. intros [| |] [|r t] H Ha; try contradiction; try discriminate; reflexivity. Qed.
+Proof. intros [|r0|r0] [|r t] H Ha; try contradiction; try discriminate; reflexivity. Qed.
 Lemma on_transmit_inactive : forall s, is_active (ts_on_transmit s) = false.
-Proof. intros [| |]; cbn; try reflexivity; destruct (1 <=? r); reflexivity. Qed.
+Proof. intros [|r|r]; cbn; try reflexivity; destruct (1 <=? r); reflexivity. Qed.
 
 Record opp_spec (s : state) (pn : N) (e : bool) (now : N) (s' : state) : Prop := {
   o_cfg : cfg s' = cfg s;
@@ -108,13 +108,339 @@ Proof.
     (constructor; cbn [cfg rng stable latest ts timer]; try reflexivity; intros;
      try discriminate;
      auto using activate_nd, activate_idem, activate_active).
+  all: try (exfalso; congruence).
+  all: try (left; congruence).
+  all: try (right; congruence).
   all: try (left; apply activate_active; assumption).
-  all: try (match goal with H : Some _ = Some _ |- _ => inversion H; subst end).
   all: try (right; apply activate_active; assumption).
-  all: try (left; reflexivity).
-  all: try (right; left; eexists; split; reflexivity).
-  all: try (right; right; split; reflexivity).
   all: try (left; apply activate_idem, activate_active; assumption).
-  all: try (right; reflexivity).
   all: try (right; apply activate_idem, activate_active; assumption).
+  all: try (right; left; eexists; split; [reflexivity|congruence]).
+  all: try (right; left; eexists; split; congruence).
+  all: try (right; right; split; congruence).
+  all: try (right; left; eexists; split; [eassumption|reflexivity]).
+Qed.
+
+Lemma transmit_none : forall s now c m pkt oe af pf s',
+  transmit s now c m pkt oe af pf = (s', None) -> s' = s.
+Proof.
+  intros s now c m pkt oe af pf s' H. unfold transmit in H.
+  repeat match type of H with
+    | context [if ?b then _ else _] => destruct b
+    | context [let '(_, _) := ?e in _] => destruct e
+    end; inversion H; reflexivity.
+Qed.
+
+Record tx_spec (s : state) (pkt : N) (oe : bool) (s' : state) (fr : frame) : Prop := {
+  t_ne : rng s <> [];
+  t_fr : f_ranges fr = rev (rng s);
+  t_rng : rng s' = rng s; t_cfg : cfg s' = cfg s;
+  t_timer : timer s' = None;
+  t_inact : is_active (ts s') = false;
+  t_elic : oe || f_ping fr = true -> latest s' = Some (pkt, largest_hi (rng s)) /\
+             (stable s' = stable s \/ stable s' = Some (pkt, largest_hi (rng s)));
+  t_nelic : oe || f_ping fr = false -> latest s' = latest s /\ stable s' = stable s
+}.
+
+Lemma transmit_some : forall s now c m pkt oe af pf s' fr,
+  transmit s now c m pkt oe af pf = (s', Some fr) -> tx_spec s pkt oe s' fr.
+Proof.
+  intros s now c m pkt oe af pf s' fr H. unfold transmit in H.
+  destruct (rng s) as [|r0 t0] eqn:Er.
+  { unfold should_transmit in H. cbn [negb] in H. discriminate. }
+  destruct (negb (should_transmit (ts s) c m true)); [discriminate|].
+  destruct (negb af); [discriminate|].
+  set (ping := negb oe && (can_transmit c || can_retransmit c) && (elicitation_interval (cfg s) <=? tse s) && pf) in *.
+  assert (Emax : max_value (r0 :: t0) = Some (largest_hi (r0 :: t0))) by reflexivity.
+  rewrite Emax in H.
+  destruct (oe || ping) eqn:Ee;
+    (destruct (stable s) as [st|] eqn:Est); inversion H; subst; clear H;
+    (constructor; cbn [rng cfg timer ts stable latest f_ranges f_ping]; rewrite ?Er; try reflexivity;
+     try discriminate; try apply on_transmit_inactive; intros; try congruence; auto).
+Qed.
+
+Lemma tx_hit_some : forall t lo hi x, tx_hit t lo hi = Some x ->
+  exists pkt, t = Some (pkt, x) /\ lo <= pkt <= hi.
+Proof.
+  intros [[p x0]|] lo hi x H; cbn in H; [|discriminate].
+  destruct (N.leb_spec lo p); destruct (N.leb_spec p hi); cbn in H; try discriminate.
+  inversion H; subst. exists p. split; [reflexivity|lia].
+Qed.
+Lemma tx_hit_none : forall p x lo hi, lo <= p <= hi -> tx_hit (Some (p, x)) lo hi = Some x.
+Proof.
+  intros p x lo hi [H1 H2]. cbn. destruct (N.leb_spec lo p); [|lia]. destruct (N.leb_spec p hi); [|lia]. reflexivity.
+Qed.
+
+Record aet_spec (st la : option tx) (lo hi : N) (st' la' : option tx) (r : option N) : Prop := {
+  a_sub : forall e, st' = Some e \/ la' = Some e -> st = Some e \/ la = Some e;
+  a_hit : forall x, r = Some x -> exists pkt, (st = Some (pkt, x) \/ la = Some (pkt, x)) /\ lo <= pkt <= hi;
+  a_la : forall p x, la = Some (p, x) -> (lo <= p <= hi -> r <> None) /\ (~ (lo <= p <= hi) -> la' = la)
+}.
+
+Lemma aet_ok : forall st la lo hi st' la' r,
+  aet_on_update st la lo hi = (st', la', r) -> aet_spec st la lo hi st' la' r.
+Proof.
+  intros st la lo hi st' la' r H. unfold aet_on_update in H.
+  destruct (tx_hit la lo hi) as [x|] eqn:El.
+  - inversion H; subst. apply tx_hit_some in El as [pkt [-> Hr]]. constructor.
+    + intros e [E|E]; discriminate.
+    + intros x0 E. inversion E; subst. exists pkt. auto.
+    + intros p x0 E. inversion E; subst. split; [intros _; discriminate|intros Hn; contradiction].
+  - destruct (tx_hit st lo hi) as [x|] eqn:Es.
+    + inversion H; subst. apply tx_hit_some in Es as [pkt [-> Hr]]. constructor.
+      * intros e [E|E]; right; assumption.
+      * intros x0 E. inversion E; subst. exists pkt. auto.
+      * intros p x0 E. split; [intros Hr'; subst; rewrite (tx_hit_none _ _ _ _ Hr') in El; discriminate|reflexivity].
+    + inversion H; subst. constructor.
+      * intros e [E|E]; auto.
+      * intros x E; discriminate.
+      * intros p x0 E. split; [intros Hr'; subst; rewrite (tx_hit_none _ _ _ _ Hr') in El; discriminate|reflexivity].
+Qed.
+
+(* ---------------- the invariant relating the model to the reference bookkeeping ---------------- *)
+
+Definition content_covers (f : jframe) (p t : N) : Prop :=
+  in_frame p (j_rl f) = true \/ (j_all f = true /\ t <= j_time f).
+
+Record Inv (now : N) (s : state) (rf : ref) : Prop := {
+  i_clock : 1 <= now;
+  i_lim : 1 <= ranges_limit (cfg s);
+  i_wf : WF (rng s);
+  i_len : len (rng s) <= ranges_limit (cfg s) /\ len (rng s) <= nproc rf;
+  i_sub : forall x, in_ranges x (rng s) = true -> In x (procd rf);
+  i_bound : forall x, In x (procd rf) -> x < varint_max;
+  i_max : forall m, max_tracked rf = Some m -> max_value (rng s) = Some m;
+  i_timer : forall d, timer s = Some d -> d <= now + max_ack_delay (cfg s);
+  i_dl : owes_ok (max_ack_delay (cfg s)) s (pend rf);
+  i_nd : pend rf <> [] -> ts s <> Disabled;
+  i_arr : forall p t, In (p, t) (pend rf ++ cov rf) -> t <= now /\ (lacked rf < Nz p)%Z;
+  i_cov : forall p t, In (p, t) (pend rf ++ cov rf) -> exists y, p <= y /\ in_ranges y (rng s) = true;
+  i_in : nproc rf < ranges_limit (cfg s) ->
+         forall p t, In (p, t) (pend rf ++ cov rf) -> in_ranges p (rng s) = true;
+  i_aet : forall pkt x, stable s = Some (pkt, x) \/ latest s = Some (pkt, x) ->
+          exists f, In f (frames rf) /\ j_pkt f = pkt /\ largest_hi (j_rl f) = x;
+  i_lostelic : forall f, In f (frames rf) -> j_lost f = true -> j_elic f = true;
+  i_last : cov rf <> [] -> exists h tl, frames rf = h :: tl /\
+           (forall p t, In (p, t) (cov rf) -> p <= largest_hi (j_rl h) /\ content_covers h p t) /\
+           (j_elic h = true ->
+              if j_lost h then is_active (ts s) = true
+              else latest s = Some (j_pkt h, largest_hi (j_rl h)))
+}.
+
+Lemma max_tracked_none : forall rf, max_tracked rf = None -> forall x, In x (procd rf) -> (Nz x <= lacked rf)%Z.
+Proof.
+  intros rf H x Hx. unfold max_tracked in H. apply max_list_none in H.
+  destruct (Z.ltb_spec (lacked rf) (Nz x)) as [Hlt|Hle]; [|assumption].
+  assert (In x (filter (fun p => (lacked rf <? Nz p)%Z) (procd rf))).
+  { apply filter_In. split; [assumption|]. apply Z.ltb_lt. assumption. }
+  rewrite H in H0. destruct H0.
+Qed.
+
+Lemma max_tracked_some : forall rf m, max_tracked rf = Some m -> In m (procd rf) /\ (lacked rf < Nz m)%Z.
+Proof.
+  intros rf m H. unfold max_tracked in H. apply max_list_in in H. apply filter_In in H as [H1 H2].
+  apply Z.ltb_lt in H2. auto.
+Qed.
+
+Lemma max_value_some : forall l m, max_value l = Some m -> l <> [] /\ largest_hi l = m.
+Proof. intros [|r t] m H; [discriminate|]. inversion H. split; [discriminate|reflexivity]. Qed.
+Lemma max_value_ne : forall l, l <> [] -> max_value l = Some (largest_hi l).
+Proof. intros [|r t] H; [contradiction|reflexivity]. Qed.
+
+Lemma in_app_l : forall {A} (x : A) l1 l2, In x l1 -> In x (l1 ++ l2).
+Proof. intros. apply in_or_app. left. assumption. Qed.
+Lemma in_app_r : forall {A} (x : A) l1 l2, In x l2 -> In x (l1 ++ l2).
+Proof. intros. apply in_or_app. right. assumption. Qed.
+
+(* ---- a processed packet ---- *)
+Lemma step_proc : forall now s rf dt pn fl,
+  Inv now s rf -> pn < varint_max ->
+  let now' := now + dt in
+  let s' := on_processed_packet s pn (N.testbit fl 0) now' (N.land (N.shiftr fl 1) 3) (N.testbit fl 3) in
+  let rf' := ref_step (ranges_limit (cfg s)) now' rf (OProc dt pn fl) None in
+  Inv now' s' rf' /\ cfg s' = cfg s /\
+  check (max_ack_delay (cfg s)) rf rf' (OProc dt pn fl) None (optz (timer s')) (bz (is_active (ts s'))) = true.
+Proof.
+  intros now s rf dt pn fl I Hpn now' s' rf'.
+  destruct I as [Ic Il Iw [Ilen1 Ilen2] Isub Ib Imax It Idl Ind Iarr Icov Iin Iaet Ile Ilast].
+  assert (Hnow' : 1 <= now') by (unfold now'; lia).
+  pose proof (opp_ok s pn (N.testbit fl 0) now' (N.land (N.shiftr fl 1) 3) (N.testbit fl 3) Il Hnow') as O.
+  fold s' in O. destruct O as [Ocfg Orng Ost Ola Ond Oact Otm Onew Otm'].
+  set (lim := ranges_limit (cfg s)) in *. set (mad := max_ack_delay (cfg s)) in *.
+  assert (Hwf' : WF (rng s')) by (rewrite Orng; apply ipn_wf; assumption).
+  destruct (ipn_len (rng s) pn lim Ilen1 Il) as [Hl1 Hl2].
+  assert (Hne' : rng s' <> []) by (rewrite Orng; apply insert_packet_number_nonempty; assumption).
+  assert (Hlg : largest_hi (rng s') = N.max pn (largest_hi (rng s))) by (rewrite Orng; apply ipn_largest; assumption).
+  set (owed := N.testbit fl 0 && (lacked rf <? Nz pn)%Z) in *.
+  assert (Hpend' : pend rf' = if owed then (pn, now') :: pend rf else pend rf) by reflexivity.
+  assert (Hcov' : cov rf' = cov rf) by reflexivity.
+  assert (Hlack' : lacked rf' = lacked rf) by reflexivity.
+  assert (Hnproc' : nproc rf' = nproc rf + 1) by reflexivity.
+  assert (Hprocd' : procd rf' = pn :: procd rf) by reflexivity.
+  assert (Hframes' : frames rf' = frames rf) by reflexivity.
+  clearbody rf'.
+  (* every old owed/covered packet keeps its guarantees *)
+  assert (Hold_dl : owes_ok mad s' (pend rf)).
+  { intros p t Hp. destruct (Idl _ _ Hp) as [Ha|[d [Hd Hle]]]; [left; auto|].
+    destruct (Otm _ Hd) as [E|E]; [right; exists d; auto|left; assumption]. }
+  assert (Hstep_dl : owes_ok mad s' (pend rf')).
+  { rewrite Hpend'. destruct owed eqn:Eo; [|assumption].
+    intros p t [E|Hp]; [|exact (Hold_dl _ _ Hp)]. inversion E; subst p t.
+    apply andb_true_iff in Eo as [Ee _].
+    destruct (Onew Ee) as [Ha|[[d [Hd Hd']]|[Hn Hd']]].
+    - left; assumption.
+    - right. exists d. split; [assumption|]. specialize (It _ Hd). unfold now'. fold mad in It. lia.
+    - right. eexists. split; [exact Hd'|]. rewrite tstamp_id by lia. fold mad. lia. }
+  split; [|split; [assumption|]].
+  - constructor; rewrite ?Ocfg; fold lim; fold mad; try assumption.
+    + split; [rewrite Orng; assumption|]. rewrite Orng, Hnproc'. lia.
+    + intros x Hx. rewrite Orng in Hx. rewrite Hprocd'. apply insert_packet_number_in in Hx as [->|Hx]; [left; reflexivity|right; auto].
+    + intros x Hx. rewrite Hprocd' in Hx. destruct Hx as [<-|Hx]; auto.
+    + (* i_max *)
+      intros m Hm. rewrite (max_value_ne _ Hne'), Hlg. f_equal.
+      unfold max_tracked in Hm. rewrite Hprocd', Hlack' in Hm. cbn [filter] in Hm.
+      destruct (Z.ltb_spec (lacked rf) (Nz pn)) as [Hlt|Hge].
+      * rewrite max_list_cons in Hm. fold (max_tracked rf) in Hm. inversion Hm as [Hm'].
+        destruct (max_tracked rf) as [m0|] eqn:Em0.
+        -- pose proof (Imax m0 eq_refl) as Em1. apply max_value_some in Em1 as [_ ->]. reflexivity.
+        -- destruct (rng s) as [|r0 t0] eqn:Er; [cbn; lia|].
+           assert (Hin : in_ranges (largest_hi (r0 :: t0)) (r0 :: t0) = true) by (apply largest_in; [discriminate|assumption]).
+           apply Isub in Hin. apply (max_tracked_none rf Em0) in Hin. unfold Nz in *. lia.
+      * fold (max_tracked rf) in Hm. pose proof (max_tracked_some rf m Hm) as [_ Hl].
+        apply Imax in Hm. apply max_value_some in Hm as [_ ->]. unfold Nz in *. lia.
+    + intros d Hd. destruct (Otm' _ Hd) as [E| ->]; [specialize (It _ E); unfold now'; lia|].
+      rewrite tstamp_id by lia. lia.
+    + intros _. assumption.
+    + (* i_arr *)
+      intros p t Hp. rewrite Hlack'. rewrite Hpend', Hcov' in Hp.
+      assert (Hc : (p, t) = (pn, now') /\ owed = true \/ In (p, t) (pend rf ++ cov rf)).
+      { destruct owed; [destruct Hp as [E|Hp]; [left; split; [symmetry; exact E|reflexivity]|right; exact Hp]|right; exact Hp]. }
+      destruct Hc as [[E Eo]|Hc].
+      * inversion E; subst. apply andb_true_iff in Eo as [_ Eo]. apply Z.ltb_lt in Eo. split; [lia|assumption].
+      * destruct (Iarr _ _ Hc). split; [unfold now'; lia|assumption].
+    + (* i_cov *)
+      intros p t Hp. rewrite Hpend', Hcov' in Hp. rewrite Orng.
+      assert (Hc : p = pn \/ In (p, t) (pend rf ++ cov rf)).
+      { destruct owed; [destruct Hp as [E|Hp]; [left; inversion E; reflexivity|right; exact Hp]|right; exact Hp]. }
+      destruct Hc as [->|Hc]; [apply ipn_cover; assumption|].
+      destruct (Icov _ _ Hc) as [y [Hy Hin]].
+      destruct (ipn_keep_or (rng s) pn lim y Iw Ilen1 Il Hin) as [H|[Hlt H]]; [exists y; auto|exists pn; split; [lia|assumption]].
+    + (* i_in *)
+      intros Hn p t Hp. rewrite Hnproc' in Hn. rewrite Hpend', Hcov' in Hp. rewrite Orng.
+      rewrite ipn_noevict by lia.
+      assert (Hc : p = pn \/ In (p, t) (pend rf ++ cov rf)).
+      { destruct owed; [destruct Hp as [E|Hp]; [left; inversion E; reflexivity|right; exact Hp]|right; exact Hp]. }
+      destruct Hc as [->|Hc]; [apply ins_has; assumption|].
+      apply ins_keeps; [assumption|]. apply Iin with t; [lia|assumption].
+    + intros pkt x. rewrite Ost, Ola, Hframes'. apply Iaet.
+    + rewrite Hframes'. assumption.
+    + (* i_last *)
+      rewrite Hcov', Hframes'. intros Hc. destruct (Ilast Hc) as (h & tl & Hf & Hcv & He). exists h, tl. split; [exact Hf|]. split; [exact Hcv|].
+      intros Hel. specialize (He Hel). destruct (j_lost h); [auto|rewrite Ola; assumption].
+  - (* check *)
+    unfold check. apply andb_true_iff. split; [|apply deadline_from; assumption].
+    cbv zeta. match goal with |- (if ?c then _ else _) = true => destruct c eqn:Edem; [|reflexivity] end.
+    apply andb_true_iff in Edem as [Ee Edem].
+    replace (is_active (ts s')) with true; [reflexivity|]. symmetry. unfold s'. rewrite Ee.
+    apply immediate_on_reorder; [assumption|].
+    apply orb_true_iff in Edem as [Eo|Ece].
+    + right. destruct (max_tracked rf) as [m|] eqn:Em; [|discriminate].
+      exists m. split; [apply Imax; reflexivity|]. split; [apply Ib; apply (max_tracked_some rf m Em)|].
+      intros ->. rewrite N.eqb_refl in Eo. discriminate.
+    + left. apply N.eqb_eq. assumption.
+Qed.
+
+Lemma filter_none : forall {A} (f : A -> bool) l, (forall x, In x l -> f x = false) -> filter f l = [].
+Proof.
+  induction l as [|a t IH]; intros H; [reflexivity|]. cbn [filter].
+  rewrite (H a (or_introl eq_refl)). apply IH. intros x Hx. apply H. right; assumption.
+Qed.
+Lemma filter_id : forall {A} (f : A -> bool) l, (forall x, In x l -> f x = true) -> filter f l = l.
+Proof.
+  induction l as [|a t IH]; intros H; [reflexivity|]. cbn [filter].
+  rewrite (H a (or_introl eq_refl)). f_equal. apply IH. intros x Hx. apply H. right; assumption.
+Qed.
+
+Lemma in_ranges_member : forall l a b x, In (a, b) l -> a <= x <= b -> in_ranges x l = true.
+Proof.
+  intros l a b x Hin [H1 H2]. unfold in_ranges. apply existsb_exists. exists (a, b). split; [assumption|].
+  cbn [fst snd]. apply andb_true_iff. split; apply N.leb_le; assumption.
+Qed.
+
+Definition fo_of (f : option frame) : option (bool * list (N * N)) :=
+  match f with Some fr => Some (f_ping fr, f_ranges fr) | None => None end.
+
+(* ---- a packet assembly ---- *)
+Lemma step_tx : forall now s rf dt ctl pkt c m af pf s' f,
+  Inv now s rf ->
+  let now' := now + dt in
+  transmit s now' c m pkt (N.testbit ctl 4) af pf = (s', f) ->
+  let rf' := ref_step (ranges_limit (cfg s)) now' rf (OTx dt ctl pkt) (fo_of f) in
+  Inv now' s' rf' /\ cfg s' = cfg s /\
+  check (max_ack_delay (cfg s)) rf rf' (OTx dt ctl pkt) (fo_of f) (optz (timer s')) (bz (is_active (ts s'))) = true.
+Proof.
+  intros now s rf dt ctl pkt c m af pf s' f I now' Htx rf'.
+  destruct I as [Ic Il Iw [Ilen1 Ilen2] Isub Ib Imax It Idl Ind Iarr Icov Iin Iaet Ile Ilast].
+  destruct f as [fr|].
+  2:{ apply transmit_none in Htx. subst s'. cbn [fo_of ref_step] in rf'. subst rf'.
+      split; [|split; [reflexivity|]].
+      - constructor; auto; try (unfold now'; lia).
+        + intros d Hd. specialize (It _ Hd). unfold now'. lia.
+        + intros p t Hp. destruct (Iarr _ _ Hp). split; [unfold now'; lia|assumption].
+      - unfold check. cbn [andb]. apply deadline_from. assumption. }
+  apply transmit_some in Htx. destruct Htx as [Tne Tfr Trng Tcfg Ttm Tin Tel Tnel].
+  set (lim := ranges_limit (cfg s)) in *. set (mad := max_ack_delay (cfg s)) in *.
+  set (all := lim <=? nproc rf) in *.
+  assert (Hkeep : forall pa, In pa (pend rf) -> (negb all && negb (in_frame (fst pa) (f_ranges fr))) = false).
+  { intros [p t] Hp. destruct all eqn:Ea; [reflexivity|]. cbn [negb andb fst].
+    apply N.leb_gt in Ea. unfold in_frame. rewrite Tfr, in_ranges_rev.
+    rewrite (Iin Ea p t (in_app_l _ _ _ Hp)). reflexivity. }
+  assert (Hpend' : pend rf' = []).
+  { cbn [rf' fo_of ref_step pend]. apply filter_none. exact Hkeep. }
+  assert (Hcov' : cov rf' = pend rf ++ cov rf).
+  { cbn [rf' fo_of ref_step cov]. f_equal. apply filter_id. intros pa Hp. exact (f_equal negb (Hkeep pa Hp)). }
+  assert (Hframes' : frames rf' = {| j_pkt := pkt; j_elic := N.testbit ctl 4 || f_ping fr; j_rl := f_ranges fr; j_all := all;
+                                    j_time := now'; j_lost := false |} :: frames rf) by reflexivity.
+  assert (Hprocd' : procd rf' = procd rf) by reflexivity.
+  assert (Hnproc' : nproc rf' = nproc rf) by reflexivity.
+  assert (Hlack' : lacked rf' = lacked rf) by reflexivity.
+  assert (Hmt : max_tracked rf' = max_tracked rf) by reflexivity.
+  assert (Hlrl : largest_hi (f_ranges fr) = largest_hi (rng s)) by (rewrite Tfr; apply largest_rev).
+  clearbody rf'.
+  split; [|split; [assumption|]].
+  - constructor; rewrite ?Tcfg, ?Trng, ?Hprocd', ?Hnproc', ?Hlack', ?Hmt; fold lim; fold mad; auto; try (unfold now'; lia).
+    + rewrite Ttm. intros d Hd; discriminate.
+    + rewrite Hpend'. intros p t [].
+    + rewrite Hpend'. intros H; contradiction.
+    + rewrite Hpend', Hcov'. cbn [app]. intros p t Hp. destruct (Iarr _ _ Hp). split; [unfold now'; lia|assumption].
+    + rewrite Hpend', Hcov'. cbn [app]. assumption.
+    + rewrite Hpend', Hcov'. cbn [app]. assumption.
+    + (* i_aet *)
+      intros pk x Hx. rewrite Hframes'.
+      destruct (N.testbit ctl 4 || f_ping fr) eqn:Ee.
+      * destruct (Tel eq_refl) as [Hla Hst].
+        assert (Hc : (pk, x) = (pkt, largest_hi (rng s)) \/ stable s = Some (pk, x)).
+        { destruct Hx as [Hx|Hx]; [destruct Hst as [Hst|Hst]; rewrite Hst in Hx; [right; assumption|left; inversion Hx; reflexivity]
+                                   |rewrite Hla in Hx; left; inversion Hx; reflexivity]. }
+        destruct Hc as [E|Hc].
+        -- inversion E; subst. eexists. split; [left; reflexivity|]. cbn [j_pkt j_rl]. auto.
+        -- destruct (Iaet pk x (or_introl Hc)) as [f0 [Hf0 Hr]]. exists f0. split; [right; assumption|assumption].
+      * destruct (Tnel eq_refl) as [Hla Hst]. rewrite Hla, Hst in Hx.
+        destruct (Iaet pk x Hx) as [f0 [Hf0 Hr]]. exists f0. split; [right; assumption|assumption].
+    + rewrite Hframes'. intros f0 [<-|Hf0]; [cbn; discriminate|apply Ile; assumption].
+    + (* i_last *)
+      rewrite Hcov', Hframes'. intros _. eexists. eexists. split; [reflexivity|]. cbn [j_rl j_elic j_lost j_pkt j_all j_time].
+      split.
+      * intros p t Hp. split.
+        -- destruct (Icov _ _ Hp) as [y [Hy Hin]]. apply in_le_largest in Hin. rewrite Hlrl. lia.
+        -- unfold content_covers. cbn [j_rl j_all j_time]. destruct all eqn:Ea.
+           ++ right. split; [reflexivity|]. destruct (Iarr _ _ Hp). unfold now'. lia.
+           ++ left. apply N.leb_gt in Ea. unfold in_frame. rewrite Tfr, in_ranges_rev. apply Iin with t; assumption.
+      * intros Hel. rewrite Hlrl. apply (Tel Hel).
+  - unfold check. cbn [fo_of]. apply andb_true_iff. split.
+    + apply forallb_forall. intros [a b] Hr. cbn [fst snd]. rewrite Tfr in Hr.
+      apply in_rev in Hr.
+      assert (Hab : a <= b). { unfold WF in Iw. rewrite Forall_forall in Iw. apply (Iw _ Hr). }
+      apply range_processed_ok; [assumption|]. intros x Hx. apply Isub. eapply in_ranges_member; eassumption.
+    + apply deadline_from. rewrite Hpend'. intros p t [].
 Qed.
